@@ -618,6 +618,50 @@ func bitLen(x int64) int {
 }
 
 // bitsOf: the bit positions v may have set, as one range (over-approximation).
+// shiftOverflows: somewhere in the term a left shift by a constant moves bits of its operand beyond
+// the width of the type the shift is done in (for int / uint: beyond 32 bits, the width they have
+// on the 32-bit platforms). "" if not.
+func shiftOverflows(v ssa.Value, depth int, eval func(ssa.Value) AV) string {
+	if depth > 8 {
+		return ""
+	}
+	switch x := v.(type) {
+	case *ssa.BinOp:
+		if x.Op == token.SHL {
+			if k, ok := constIntVal(x.Y); ok && k > 0 {
+				a := bitsOf(x.X, depth+1)
+				// what the interval analysis knows about the operand here (a range check before the packing)
+				if all := eval(x.X).all(); all != nil && all.Lo != nil && all.Hi != nil && all.Lo.Sign() >= 0 && all.Hi.IsInt64() {
+					a.hi = min(a.hi, bitLen(all.Hi.Int64()))
+				}
+				width, _ := typeBits(x.Type())
+				name := ""
+				if bt, ok := x.Type().Underlying().(*types.Basic); ok {
+					switch bt.Kind() {
+					case types.Int, types.Uint, types.Uintptr:
+						width, name = 32, bt.Name()
+					}
+				}
+				if a.lo < a.hi && a.hi+int(k) > width {
+					if name != "" {
+						return fmt.Sprintf("bits [%d,%d) are shifted left by %d in type %s, which has 32 bits on 32-bit platforms: the upper bits are lost there (convert to a 64-bit type before shifting)", a.lo, a.hi, k, name)
+					}
+					return fmt.Sprintf("bits [%d,%d) are shifted left by %d in a %d-bit type: the upper bits are lost", a.lo, a.hi, k, width)
+				}
+			}
+		}
+		if why := shiftOverflows(x.X, depth+1, eval); why != "" {
+			return why
+		}
+		return shiftOverflows(x.Y, depth+1, eval)
+	case *ssa.Convert:
+		return shiftOverflows(x.X, depth+1, eval)
+	case *ssa.ChangeType:
+		return shiftOverflows(x.X, depth+1, eval)
+	}
+	return ""
+}
+
 func bitsOf(v ssa.Value, depth int) bitRange {
 	tb, signed := typeBits(v.Type())
 	full := bitRange{0, tb}
@@ -781,6 +825,14 @@ func (c *Ctx) BitFields(pkgs ...string) []core.Ob {
 				desc = append(desc, fmt.Sprintf("[%d,%d)", rs[i].lo, rs[i].hi))
 			}
 			o.Got = strings.Join(desc, " ")
+			// a field is shifted into place in a type that has room for it on every platform: a shift
+			// done in int / uint moves at most 32 bits reliably (int is 32 bits wide on 386, arm, wasm)
+			for i, tm := range terms {
+				if why := shiftOverflows(tm, 0, eval); why != "" {
+					o.Status = core.Violated
+					o.Got = fmt.Sprintf("field %d: %s", i+1, why)
+				}
+			}
 			for i := range rs {
 				for j := i + 1; j < len(rs); j++ {
 					if rs[i].lo < rs[j].hi && rs[j].lo < rs[i].hi && rs[i].lo < rs[i].hi && rs[j].lo < rs[j].hi {
